@@ -373,9 +373,19 @@ def rule_r16(ctx, prog, rule="R16"):
         if isinstance(base, tuple) and base[0] == "call" and base[1] == "index_mut":
             recv = strip(base[3][0])
             idx = strip(base[3][1])
-            while isinstance(idx, tuple) and idx[0] == "call" and idx[1] in ("deref", "as_slice", "as_ref", "borrow") and idx[3]:
+            def peel(ix):
+                for _ in range(8):
+                    if isinstance(ix, tuple) and ix[0] == "call" and ix[1] in ("deref", "as_slice", "as_ref", "borrow") and ix[3]:
+                        ix = strip(ix[3][0])
+                    elif isinstance(ix, tuple) and ix[0] == "call" and ix[1] == "index" and len(ix[3]) == 2 and \
+                            isinstance(strip(ix[3][1]), tuple) and strip(ix[3][1])[0] == "agg" and strip(ix[3][1])[1] == "std::ops::RangeFull":
+                        ix = strip(ix[3][0])      # `&v[..]`: the whole index vector
+                    else:
+                        break
+                return ix
+            idx = peel(unwrap_try(peel(idx)))
+            if isinstance(idx, tuple) and idx[0] == "call" and idx[1] == "ok_or" and idx[3]:
                 idx = strip(idx[3][0])
-            idx = unwrap_try(idx)
             st_ = b.blocks[sbb]["stmts"][si]
             nv = norm_arith(strip(b.rvalue_expr(st_["rv"], sbb, si)))
             inc_ok = isinstance(nv, tuple) and nv[0] == "binop" and nv[1] == "Add" and (
